@@ -44,6 +44,10 @@ fn c13_ops(c: &QueryCase, st: &mut Stats) -> CheckResult {
     Ok(Outcome::Ok)
 }
 
+pub fn c13_ops_entry(prog: &Program, goal_var: u8, st: &mut Stats) -> CheckResult {
+    c13_ops(&QueryCase { prog: prog.clone(), goal_var }, st)
+}
+
 fn c13_pairs(c: &(usize, usize), st: &mut Stats) -> CheckResult {
     let mc: ModelCounts = (c.0, c.1).into();
     if mc.cmodels != c.0 || mc.models != c.1 {
@@ -138,7 +142,7 @@ pub fn c13(tier: Tier) -> PropSpec {
         parts: vec![
             Part::new(
                 "ops",
-                tier.pick(4000, 50000),
+                tier.pick(30000, 300000),
                 move || {
                     (program(k, ops, true), any::<u8>())
                         .prop_map(|(prog, goal_var)| QueryCase { prog, goal_var })
@@ -148,7 +152,7 @@ pub fn c13(tier: Tier) -> PropSpec {
             ),
             Part::new(
                 "pairs",
-                tier.pick(3000, 30000),
+                tier.pick(20000, 200000),
                 || {
                     prop_oneof![
                         (0usize..6, 0usize..6),
@@ -160,10 +164,10 @@ pub fn c13(tier: Tier) -> PropSpec {
                 },
                 c13_pairs,
             ),
-            Part::new("adf", tier.pick(1500, 20000), || sem_case(1, 6), c13_adf),
+            Part::new("adf", tier.pick(15000, 150000), || sem_case(1, 6), c13_adf),
             Part::with_shrink(
                 "cli-counter",
-                tier.pick(80, 1500),
+                tier.pick(200, 2000),
                 300,
                 crate::props::cli::cli_counter_strategy,
                 crate::props::cli::cli_counter_check,
